@@ -1313,6 +1313,32 @@ def accepted_upto(src, name, bound, scopes=()):
     return bound
 
 
+def none_values(body):
+    """the expressions a computation falls back to when an Option is None, however that is written: `None => X` / `None => v = X`
+    (match arm), `.unwrap_or(X)`, `.unwrap_or_else(|| X)`, `.map_or(X, f)`, `.map_or_else(|| X, f)`, `else { X }` of an
+    `if let Some(..)` — normalised texts"""
+    out = []
+    for m in re.finditer(r"\bNone\s*=>\s*(?:\{\s*)?(?:\w+\s*=\s*)?([^,;{}]+)", body):
+        out.append(norm_text(m.group(1)))
+    for m in re.finditer(r"\.(unwrap_or|unwrap_or_else|map_or|map_or_else)\s*\(", body):
+        o = m.end() - 1
+        args = split_top(body[o + 1:close_of(body, o)], ",")
+        if args:
+            out.append(norm_text(re.sub(r"^(?:move\s+)?\|\s*\|\s*", "", args[0])))
+    for m in re.finditer(r"\bif\s+let\s+Some\(", body):
+        try:
+            arms, _, _ = _if_let_arms(body, m.start())
+            if len(arms) == 2:
+                out.append(norm_text(re.sub(r"^\w+\s*=\s*", "", arms[1].expr.rstrip(";"))))
+        except (KeyError, IndexError, AttributeError):
+            pass
+    return out
+
+
+def norm_text(t):
+    return re.sub(r"\s+", " ", strip_block(strip_parens(t.strip()))).strip()
+
+
 def none_error(body):
     """the error expression that an absent value is turned into: `None => Err(E)` / `None => return Err(E)` / `None => err!(E)` as
     a match arm, `else { return Err(E) }` of a let-else, or `.ok_or(E)` / `.ok_or_else(|| E)` — the text of E"""
